@@ -36,6 +36,17 @@ pub fn validate(grammar: &Grammar) -> NormResult<()> {
     validator.validate()
 }
 
+/// Checks the `precedence`/`assoc` annotations again on what is left after conditional
+/// compilation: removing alternatives can invalidate what `validate` has accepted.
+pub fn validate_precedence_after_cond_comp(grammar: &Grammar) -> NormResult<()> {
+    for item in &grammar.items {
+        if let GrammarItem::Nonterminal(data) = item {
+            Validator::validate_precedence(&data.alternatives)?;
+        }
+    }
+    Ok(())
+}
+
 struct Validator<'grammar> {
     grammar: &'grammar Grammar,
     match_token: Option<&'grammar MatchToken>,
@@ -146,7 +157,7 @@ impl Validator<'_> {
                         }
                     }
 
-                    self.validate_precedence(&data.alternatives)?;
+                    Self::validate_precedence(&data.alternatives)?;
 
                     for alternative in &data.alternatives {
                         self.validate_alternative(alternative)?;
@@ -158,7 +169,7 @@ impl Validator<'_> {
         Ok(())
     }
 
-    fn validate_precedence(&self, alternatives: &[Alternative]) -> NormResult<()> {
+    fn validate_precedence(alternatives: &[Alternative]) -> NormResult<()> {
         let with_precedence = alternatives.iter().any(|alt| {
             alt.attributes
                 .iter()
